@@ -369,7 +369,7 @@ def check_property(prop, tier, seed):
             "checker_cmd": "; ".join(r["cmd"] for r in results.values() if not isinstance(r, Undecided)) + ("; " + leaf["cmd"] if leaf["cmd"] else ""),
             "trusted_base": cfg.get("trusted_base", []) + ["Verus " + verus_version() + " / Z3", "rustc front end", "extractor rewrite rules R1-R12 (engine/extract)"],
             "explanation": cfg.get("explanation", ""),
-            "units": {u: ("UNDECIDED " + r.reason if isinstance(r, Undecided) else {"verified": r["verified"], "errors": r["errors"], "wall_s": round(r["wall_s"], 2)}) for u, r in results.items()},
+            "units": {u: ("UNDECIDED " + r.reason if isinstance(r, Undecided) else {"verified": r["verified"], "errors": r["errors"], "wall_s": round(r["wall_s"], 2), **({"second_stage": [n for n in r.get("notes", []) if isinstance(n, dict) and "wide_axioms_used" in n]} if r.get("wide") else {})}) for u, r in results.items()},
             "deciding_label_patterns": pats,
             "deciding_labels_present": len(labels_total),
             "deciding_clauses_present": sum(labels_total.values()),
